@@ -15,7 +15,7 @@ func init() {
 	property("C03",
 		"Static conformance of the switch lowering: every case-body chunk returns to the statement's return id and is registered under the value / default flag of the case that owns or shares it (same index term), body-less cases scan forward from i+1 and stop at the first body, registered destinations are always ids of enqueued chunks, the default bookkeeping flag is set exactly where a default destination is stored and is consulted at both exits, trailing body-less cases get their own empty chunk when a default body exists, rendering writes 'switch', then one registered 'case' line per entry in order, then the default/return tail by the branch protocol; break-stack pairing and duplicate-case rejection on the parser side. The default-owner and trailing-case registrations are under exactly their condition (C03.a/b); break nodes record the stack top (C20.b).",
 		[]string{"scheme argument of DESIGN §4 C01/C03", "go/ssa lowering is faithful to the source"},
-		"C03.a", "C03.b", "C03.c", "C03.d", "C03.e", "C01.f", "C10.e", "C20.a", "C20.c", "C13.a", "C01.e", "C01.h", "C20.b", "C10.g", "C08.e", "C18.m", "C19.d", "C18.d", "C18.n")
+		"C03.a", "C03.b", "C03.c", "C03.d", "C03.e", "C01.f", "C10.e", "C20.a", "C20.c", "C13.a", "C01.e", "C01.h", "C20.b", "C10.g", "C08.e", "C18.m", "C19.d", "C18.d", "C18.n", "C05.a", "C19.e")
 
 	register(&Rule{ID: "C03.a", Doc: "case bodies return after the switch and are registered under their own case's value / default flag", Floor: 8, Run: c03a})
 	register(&Rule{ID: "C03.b", Doc: "shared bodies: forward scan from i+1 to the first body; registered destinations are chunk ids, never -1", Floor: 6, Run: c03b})
